@@ -232,4 +232,18 @@ example : semWait [.err 4, .err 4, .ok] = some (0, 3) := by decide
 example : semTryWait [.err 11] = some (11, 1) := by decide
 example : (runCounter (Counter.start 1) [.waitOk, .waitOk, .postBegin, .postCommit, .waitOk]).succeeded = 2 := by decide
 
+/-- `zix_sem_post`, `zix_sem_init` and `zix_sem_destroy` make one kernel call each and report SUCCESS
+exactly when it returned 0 — whatever errno held before — and otherwise the status of the errno the
+call set (EOVERFLOW of a post at the maximum count is an error, never SUCCESS). -/
+theorem once_success_iff (r : SysRes) (hl : ∀ e, r = .err e → e ≠ 0) : once r = 0 ↔ r = .ok := by
+  cases r with
+  | ok => simp [once]
+  | err e =>
+    have he := hl e rfl
+    simp only [once, reduceCtorEq, iff_false]
+    exact fun h => he ((errno_success_iff e).1 h)
+
+example : once (.err 75) ≠ 0 := by decide      -- EOVERFLOW
+example : semInitArgs 3 = (0, 3) := rfl
+
 end Zix.C17
